@@ -79,10 +79,21 @@ package governance
 //@   ensures !(result0 && err == nil) ==> pHas(ps)[str(ps.prefix)] == old(pHas(ps))[str(ps.prefix)]
 //@   ensures result0 == (err == nil) && (err != nil) == gasOut(ps.state) && (old(gasOut(ps.state)) ==> gasOut(ps.state))
 
-//@ assume func (*ProposalStore).Exists
-//@   requires ps != nil
-//@   modifies nothing
-//@   ensures result == (propHas(ps, ps.prefixActive, key) || propHas(ps, ps.prefixPassed, key) || propHas(ps, ps.prefixFailed, key) || propHas(ps, ps.prefixFinalized, key) || propHas(ps, ps.prefixFinalizeFailed, key))
+// typed view of the stage stores' keys (A-TYPEDVIEW, the same trust the assumed Get/Set carry): a record filed in stage
+// prefix p under id is a visible value under the store key p ++ id
+//@ axiom forall ps *ProposalStore, p string, id ProposalID :: pHas(ps)[p][id] ==> vHas(ps.state)[p + id]   // A-TYPEDVIEW
+
+// Exists, verified on its body (five State.Exists reads, one per stage prefix): "a proposal id exists at most once over all
+// stages" rests on create refusing an id that ANY stage holds, so: if any of the five stage maps holds the id, Exists says
+// so (as long as the gas limit was not reached during the reads: a State read past the limit may miss the overlay).
+// The converse (Exists true => some stage holds it) is not claimed: State.Exists also answers true for a key deleted in
+// the overlay (known finding C09.deleted-absent), which only makes create refuse more.
+//@ func (*ProposalStore).Exists
+//@   requires ps != nil && wfState(ps.state)
+//@   modifies exhausted(ps.state.cache), exhausted(ps.state.txSession)
+//@   ensures !exhausted(ps.state.cache) && (propHas(ps, ps.prefixActive, key) || propHas(ps, ps.prefixPassed, key) || propHas(ps, ps.prefixFailed, key) || propHas(ps, ps.prefixFinalized, key) || propHas(ps, ps.prefixFinalizeFailed, key)) ==> result   // C14.id-unique-over-stages
+//@   ensures !old(exhausted(ps.state.cache)) && propHas(ps, ps.prefixActive, key) ==> result                                           // C14.id-unique-over-stages
+//@   ensures wfState(ps.state)
 
 // QueryAllStores restores ps.prefix in a deferred closure, which the engine ignores: the contract
 // therefore says nothing about ps.prefix after the call (every caller re-aims the store before its next use).
@@ -402,3 +413,14 @@ package governance
 //@   modifies exhausted(ps.state.cache), exhausted(ps.state.txSession)
 //@   yields y1 != nil && y1.Type == proposalType   // C14.proposal-scan
 //@   yields !exhausted(ps.state.cache) && vHas(ps.state)[y0] ==> propHas(ps, ps.prefix, y1.ProposalID) && *y1 == propRec(ps, ps.prefix, y1.ProposalID)   // C14.proposal-scan
+
+// scan of the vote records of one proposal, verified on its body: a prefix scan of "<prefix><id>_" (the end key is Rangefix
+// of the same start key), every key handed out is a key of that scan, a fresh read hands out the visible value, and the
+// scan stops early only when fn asks for it. (GetVotesByID, which decodes these records into the list the tally runs
+// over, stays assumed: its contract carries the ghost prefix-sum witness of the returned list.)
+//@ func (*ProposalVoteStore).IterateByID
+//@   iterator                                   // C14.vote-scan
+//@   requires pvs != nil && pvs.store != nil
+//@   modifies exhausted(pvs.store.cache), exhausted(pvs.store.txSession)
+//@   yields scanKey(str(y0), str(pvs.prefix) + (proposalID + "_"))   // C14.vote-scan
+//@   yields !exhausted(pvs.store.cache) && vHas(pvs.store)[str(y0)] ==> y1 == vVal(pvs.store)[str(y0)]   // C14.vote-scan
